@@ -217,5 +217,17 @@ fail_fs:
 	fstree_cleanup(&sqfs->fs);
 fail_file:
 	sqfs_drop(sqfs->outfile);
+#if defined(_WIN32) || defined(__WINDOWS__)
+	{
+		WCHAR *path = path_to_windows(wrcfg->filename);
+
+		if (path != NULL)
+			DeleteFileW(path);
+
+		free(path);
+	}
+#else
+	unlink(wrcfg->filename);
+#endif
 	return -1;
 }
